@@ -907,3 +907,134 @@ Proof.
   rewrite (nth_indep _ (Err EValue) (defuzzify_samples k xs [])) by (rewrite map_length; exact Hi).
   apply map_nth.
 Qed.
+
+(* ------------------------------------------------------------------------------------------------ *)
+(* Top level: IntegralDefuzzifier.defuzzify on a real membership function                            *)
+
+Lemma map_nonneg (mu : R -> R) xs : (forall x, 0 <= mu x) -> Forall (fun y => 0 <= y) (map mu xs).
+Proof. intros H. apply Forall_forall. intros y Hy. apply in_map_iff in Hy. destruct Hy as [x [<- _]]. apply H. Qed.
+
+Lemma Forall_map_eq0 (mu : R -> R) xs : Forall (fun y => y = 0) (map mu xs) <-> Forall (fun x => mu x = 0) xs.
+Proof. rewrite Forall_map. reflexivity. Qed.
+
+Theorem defuzzify_in_range k r mu lo hi z : (0 < r)%nat -> lo <= hi -> (forall x, 0 <= mu x) ->
+  defuzzify (N:=NumRN) k r (liftf mu) (Some lo) (Some hi) = Ok (Some z) -> lo <= z <= hi.
+Proof.
+  intros Hr Hle Hmu. rewrite defuzzify_value by exact Hr. intros E. inversion E as [E'].
+  apply (defuzz_value_in_range k lo hi _ _ z) in E'; [exact E' | | | ].
+  - rewrite map_length. reflexivity.
+  - apply Rmidpoints_in_range. exact Hle.
+  - apply map_nonneg. exact Hmu.
+Qed.
+
+Theorem defuzzify_nan_iff k r mu lo hi : (0 < r)%nat -> (forall x, 0 <= mu x) ->
+  (defuzzify (N:=NumRN) k r (liftf mu) (Some lo) (Some hi) = Ok None <->
+   Forall (fun x => mu x = 0) (Rmidpoints lo hi r)).
+Proof.
+  intros Hr Hmu. rewrite defuzzify_value by exact Hr. rewrite <- Forall_map_eq0.
+  rewrite <- (defuzz_value_nan_iff k (Rmidpoints lo hi r) (map mu (Rmidpoints lo hi r))).
+  - split; [intros E; inversion E; reflexivity | intros E; rewrite E; reflexivity].
+  - rewrite map_length. reflexivity.
+  - intros E. apply (f_equal (@length R)) in E. rewrite map_length, Rmidpoints_length in E. simpl in E. lia.
+  - apply map_nonneg. exact Hmu.
+Qed.
+
+(* the result is never an error and, when some sample is positive, it is a number *)
+Theorem defuzzify_defined k r mu lo hi : (0 < r)%nat -> (forall x, 0 <= mu x) ->
+  Exists (fun x => 0 < mu x) (Rmidpoints lo hi r) ->
+  exists z, defuzzify (N:=NumRN) k r (liftf mu) (Some lo) (Some hi) = Ok (Some z).
+Proof.
+  intros Hr Hmu Hex.
+  destruct (defuzzify (N:=NumRN) k r (liftf mu) (Some lo) (Some hi)) as [[z|]|e] eqn:E.
+  - exists z. reflexivity.
+  - exfalso. apply (defuzzify_nan_iff k r mu lo hi Hr Hmu) in E.
+    apply Exists_exists in Hex. destruct Hex as [x [Hx Hp]]. rewrite Forall_forall in E.
+    specialize (E x Hx). lra.
+  - rewrite defuzzify_value in E by exact Hr. discriminate.
+Qed.
+
+Theorem defuzzify_som_le_mom_le_lom r mu lo hi s m l : (0 < r)%nat ->
+  defuzzify (N:=NumRN) SmallestOfMaximum r (liftf mu) (Some lo) (Some hi) = Ok (Some s) ->
+  defuzzify (N:=NumRN) MeanOfMaximum r (liftf mu) (Some lo) (Some hi) = Ok (Some m) ->
+  defuzzify (N:=NumRN) LargestOfMaximum r (liftf mu) (Some lo) (Some hi) = Ok (Some l) ->
+  s <= m <= l.
+Proof.
+  intros Hr. rewrite !defuzzify_value by exact Hr. intros Es Em El.
+  inversion Es as [Es']; inversion Em as [Em']; inversion El as [El'].
+  exact (som_le_mom_le_lom_value _ _ s m l Es' Em' El').
+Qed.
+
+(* ------------------------------------------------------------------------------------------------ *)
+(* Tactic for the concrete examples: decide the comparisons of explicit reals                        *)
+Ltac Rdecide :=
+  repeat (match goal with
+  | |- context [Rltb ?a ?b] => destruct (Rltb_spec a b); try (exfalso; lra)
+  | |- context [Rleb ?a ?b] => destruct (Rleb_spec a b); try (exfalso; lra)
+  | |- context [Reqb ?a ?b] => destruct (Reqb_spec a b); try (exfalso; lra)
+  | |- context [Req_EM_T ?a ?b] => destruct (Req_EM_T a b); try (exfalso; lra)
+  | |- context [Rle_dec ?a ?b] => destruct (Rle_dec a b); try (exfalso; lra)
+  end; cbn [andb orb negb pick map Rmaxl Rminl fold_left]).
+
+(* ------------------------------------------------------------------------------------------------ *)
+(* A concrete fuzzy set (non-vacuity of the theorems): samples 0, 1, 1, 1/2 at the points 1/2, 3/2, 5/2, 7/2  *)
+
+Definition ex_xs : list R := [1/2; 3/2; 5/2; 7/2].
+Definition ex_mus : list R := [0; 1; 1; 1/2].
+
+Lemma ex_max : Rmaxl 0 [1; 1; 1/2] = 1.
+Proof. unfold Rmaxl. simpl. rewrite (Rmax_right 0 1), (Rmax_left 1 1), (Rmax_left 1 (1/2)) by lra. reflexivity. Qed.
+
+Lemma ex_argmax : argmax_points ex_xs ex_mus = [3/2; 5/2].
+Proof. unfold argmax_points, max_mask, ex_xs, ex_mus. rewrite ex_max. cbn [map]. Rdecide. reflexivity. Qed.
+
+Lemma ex_lom : defuzz_value LargestOfMaximum ex_xs ex_mus = Some (5/2).
+Proof. cbn [defuzz_value]. rewrite ex_argmax. unfold opt_max, Rmaxl. simpl. rewrite Rmax_right by lra. reflexivity. Qed.
+Lemma ex_som : defuzz_value SmallestOfMaximum ex_xs ex_mus = Some (3/2).
+Proof. cbn [defuzz_value]. rewrite ex_argmax. unfold opt_min, Rminl. simpl. rewrite Rmin_left by lra. reflexivity. Qed.
+Lemma ex_mom : defuzz_value MeanOfMaximum ex_xs ex_mus = Some 2.
+Proof. cbn [defuzz_value]. rewrite ex_argmax. unfold opt_mean, Rmean. simpl. f_equal. lra. Qed.
+Lemma ex_cen : defuzz_value Centroid ex_xs ex_mus = Some (23/10).
+Proof. unfold defuzz_value, dot, ex_xs, ex_mus. simpl. Rdecide. f_equal. lra. Qed.
+
+Lemma Rabs_val a v : (a = v \/ a = - v) -> 0 <= v -> Rabs a = v.
+Proof. intros [H|H] Hv; subst; [apply Rabs_pos_eq; exact Hv | rewrite Rabs_Ropp; apply Rabs_pos_eq; exact Hv]. Qed.
+
+Lemma ex_dist : bisector_dist ex_mus = [1/2; 1/10; 3/10; 1/2].
+Proof.
+  unfold bisector_dist, ex_mus. simpl.
+  repeat (match goal with |- _ :: _ = _ :: _ => f_equal end); try reflexivity; apply Rabs_val; lra.
+Qed.
+Lemma ex_bis : defuzz_value Bisector ex_xs ex_mus = Some (3/2).
+Proof.
+  cbn [defuzz_value]. unfold bisector_points. rewrite ex_dist. unfold min_mask, Rminl. simpl fold_left.
+  rewrite (Rmin_right (1/2) (1/10)), (Rmin_left (1/10) (3/10)), (Rmin_left (1/10) (1/2)) by lra.
+  unfold ex_xs, ex_mus. simpl Rsum. cbn [map]. Rdecide. unfold opt_mean, Rmean. simpl. f_equal. lra.
+Qed.
+
+(* the same set as a membership function on [0, 4] at resolution 4 *)
+Definition ex_mu (x : R) : R := if Rlt_dec x 1 then 0 else if Rlt_dec x 3 then 1 else 1 / 2.
+
+Lemma ex_mu_nonneg x : 0 <= ex_mu x.
+Proof. unfold ex_mu. destruct (Rlt_dec x 1); [lra|]. destruct (Rlt_dec x 3); lra. Qed.
+
+Lemma ex_midpoints : Rmidpoints 0 4 4 = ex_xs.
+Proof.
+  unfold Rmidpoints, Rmidpoint, ex_xs. simpl.
+  repeat (match goal with |- _ :: _ = _ :: _ => f_equal end); try reflexivity; lra.
+Qed.
+
+Lemma ex_samples : map ex_mu ex_xs = ex_mus.
+Proof.
+  unfold ex_xs, ex_mus, ex_mu. simpl.
+  repeat (match goal with |- context [Rlt_dec ?a ?b] => destruct (Rlt_dec a b); try (exfalso; lra) end).
+  reflexivity.
+Qed.
+
+Lemma ex_defuzzify k : defuzzify (N:=NumRN) k 4 (liftf ex_mu) (Some 0) (Some 4) = Ok (defuzz_value k ex_xs ex_mus).
+Proof. rewrite defuzzify_value by lia. rewrite ex_midpoints, ex_samples. reflexivity. Qed.
+
+Lemma ex_positive : Exists (fun x => 0 < ex_mu x) (Rmidpoints 0 4 4).
+Proof.
+  rewrite ex_midpoints. unfold ex_xs. apply Exists_cons_tl. apply Exists_cons_hd.
+  unfold ex_mu. destruct (Rlt_dec (3 / 2) 1); [lra|]. destruct (Rlt_dec (3 / 2) 3); lra.
+Qed.
